@@ -64,7 +64,11 @@ theorem gap_fuel_sufficient (self : PTFR.State) (first : Bool) (rem : Option Byt
       · split
         · simp only [List.length_drop]; omega
         · cases rem with
-          | none => simp only [Option.getD_none, List.length_nil]; omega
+          | none =>
+            simp only [Option.getD_none, List.length_nil]
+            split
+            · simp only [List.length_nil]; omega
+            · omega
           | some r => simp only [Option.getD_some, List.length_append]; omega
   · intro h; simp only at h; simp [h]
 
